@@ -652,7 +652,7 @@ def _opposite_corner(ctx, R, m, T_i):
             arg = log.get("arg")
             al = list(arg) if isinstance(arg, (list, tuple)) else (arg.flat() if isinstance(arg, Arr) else None)
             ok = al is not None and len(al) == d and all(x is y for x, y in zip(al, N))
-            ctx.ob(R, oc.qname, title, ok, f"coordinate() is applied to {nf(arg)[:80]}, not to the spatial shape {[nf(x) for x in N]}", oc.node, evidence=al is not None)
+            ctx.ob(R, oc.qname, title, ok, f"coordinate() is applied to {nf(arg)[:80]}, not to the spatial shape {[nf(x) for x in N]}" if al is not None else f"argument of coordinate() not found as a list: {nf(arg)[:80]}", oc.node, evidence=al is not None)
             continue
         # written out: replay the recorded stores into the returned array
         vals = None
